@@ -29,15 +29,22 @@ theorem value_well_typed (cfg : Config) (hf : cfg.format ≠ .other) (hb : bound
   simp only [good, Bool.and_eq_true] at hv
   exact ⟨hv.1.1, hv.1.2, hv.2, h.2⟩
 
-/-- Corollary: whenever a value is stored, the typed getter of the format's Go type
-    (`Int.GetValue`, `Float.GetValue`, `String.GetValue`/`Bytes.GetValue`, `Bool.GetValue`) does not panic. -/
+/-- Corollary: the typed getter of the format's Go type (`Int.GetValue`, `Float.GetValue`, `String.GetValue` /
+    `Bytes.GetValue`, `Bool.GetValue`) never panics — also when nothing is stored (a write-only characteristic such as
+    Identify; F37 repair) — and whenever a value is stored it returns exactly that value. -/
 theorem typed_getters_total (cfg : Config) (hf : cfg.format ≠ .other) (hb : boundsOk cfg = true) (ops : List Op)
     (t : GType) (ht : cfg.format.gtype = some t) :
-    ∀ so ∈ trace (start cfg) ops, so.1.char.value.isNil = false → typedGet so.1.char t = .ok := by
-  intro so hso hnn
+    ∀ so ∈ trace (start cfg) ops, typedGet so.1.char t = .ok ∧
+      (so.1.char.value.isNil = false → typedGetVal so.1.char t = so.1.char.value) := by
+  intro so hso
+  refine ⟨rfl, fun hnn => ?_⟩
   have h := (value_well_typed cfg hf hb ops so hso).1
   simp [wellTyped, hnn, ht] at h
-  simp [typedGet, h]
+  simp [typedGetVal, h]
+
+/-- the getter as it was (`c.Value.(T)`): on a characteristic that stores nothing it panics -/
+theorem typed_getter_unfixed_refuted :
+    typedGetOld (start ⟨.bool, ⟨false, true, false, false, false⟩, .nil, .nil, false, none⟩).char .bool = .panic := by decide
 
 /-- Corollary: what a GET response, an EVENT body or `/accessories` carries for the characteristic
     is always encodable by `encoding/json` (no NaN, no ±Inf). -/
